@@ -24,6 +24,8 @@ from typing import Dict, List, Optional, Set, Tuple
 from engine.src import FunctionInfo, own_nodes, own_nodes_incl_lambda, src_of, AnalysisError
 from engine.util import is_self_attr, enclosing_tests, enclosing_stmt, kwarg, const_value, assign_targets
 from engine.affine import lin, LinErr
+from .sem import defs_texts, expander, ctext, want, cond_want, conds_at, bind, calls, returns, stmt_of, self_attr_value_texts
+from engine.guards import cond_text
 
 RULES = {
     "C07.a": "distance strategy: label assignment is paired with the counter increment under the quota / leftover guard (operators included)",
@@ -45,6 +47,17 @@ def _block_of(stmt: ast.AST) -> List[ast.stmt]:
     return [stmt]
 
 
+# parameter positions shared by _constraint_association and its two strategies
+P_LEFTOVER, P_COUNTERS, P_LABELS, P_LEFTCLOSE, P_DCLOSE, P_CENTERS, P_X, P_NORMS, P_LIMIT, P_STRATEGY = range(10)
+
+
+def _pn(fi: FunctionInfo, pos: int) -> str:
+    ps = fi.named_params
+    if len(ps) <= pos:
+        raise AnalysisError(f"anchor vanished: parameter #{pos} of {fi.name}")
+    return ps[pos]
+
+
 def _label_stores(fi: FunctionInfo, name: str = "labels"):
     out = []
     for s in own_nodes(fi.node):
@@ -56,123 +69,252 @@ def _label_stores(fi: FunctionInfo, name: str = "labels"):
     return out
 
 
-def _has_stmt(block, text: str) -> bool:
-    return any(src_of(s) == text for s in block)
+def _effects(repo, fi: FunctionInfo, block, at: ast.AST):
+    """normalised element updates of a statement list, every index/value
+    expanded at statement `at` (the state before the block's own writes):
+       ('inc', array, index, +-k, stmt, raw index, None)   A[i] += k | A[i] -= k | A[i] = A[i] +- k
+       ('set', array, index, value, stmt, raw index, raw value)   A[i] = v (also in tuple assignments)
+       ('ninc', name, None, +-k, stmt, None, None)         n += k | n -= k | n = n +- k
+    A call `helper(a, b)` of a nested function whose body is a straight line of
+    such updates contributes the helper's updates with its parameters bound
+    (raw = source text in the caller's terms, when the helper uses a parameter)."""
+    ex = expander(repo)
+    out = []
+    _effects_into(repo, fi, block, at, ex, out, None)
+    return out
+
+
+def _effects_into(repo, fi, block, at, ex, out, inl):
+    # inl: None, or (callee FunctionInfo, {param: caller arg ast}, call statement)
+    def X(e):
+        if inl is None:
+            return ex.text(e, fi, at)
+        callee, binding, _ = inl
+        b = {k: ex.expr(v, fi, at) for k, v in binding.items()}
+        r = ex.expr(e, callee, callee.node.body[-1], b)
+        if ex.post is not None:
+            r = ex.post(r)
+        from engine import norm as _n
+        return ast.unparse(_n.canon(r, rename=False))
+
+    def RAW(e):
+        if inl is None:
+            return src_of(e)
+        _, binding, _ = inl
+        if isinstance(e, ast.Name) and e.id in binding:
+            return src_of(binding[e.id])
+        if not any(isinstance(n, ast.Name) and n.id in binding for n in ast.walk(e)):
+            return src_of(e)
+        return None
+
+    def const(e):
+        return e.value if isinstance(e, ast.Constant) and isinstance(e.value, int) and not isinstance(e.value, bool) else None
+
+    for s in block:
+        st = s if inl is None else inl[2]
+        if isinstance(s, ast.AugAssign) and isinstance(s.op, (ast.Add, ast.Sub)) and const(s.value) is not None:
+            k = const(s.value) * (1 if isinstance(s.op, ast.Add) else -1)
+            if isinstance(s.target, ast.Subscript) and isinstance(s.target.value, ast.Name):
+                out.append(("inc", s.target.value.id, X(s.target.slice), k, st, RAW(s.target.slice), None))
+            elif isinstance(s.target, ast.Name):
+                out.append(("ninc", s.target.id, None, k, st, None, None))
+        elif isinstance(s, ast.Assign):
+            pairs = []
+            for t in s.targets:
+                if isinstance(t, (ast.Tuple, ast.List)) and isinstance(s.value, (ast.Tuple, ast.List)) and len(t.elts) == len(s.value.elts):
+                    pairs += list(zip(t.elts, s.value.elts))
+                else:
+                    pairs.append((t, s.value))
+            for t, v in pairs:
+                if isinstance(t, ast.Subscript) and isinstance(t.value, ast.Name):
+                    if isinstance(v, ast.BinOp) and isinstance(v.op, (ast.Add, ast.Sub)) and const(v.right) is not None and src_of(v.left) == src_of(t):
+                        out.append(("inc", t.value.id, X(t.slice), const(v.right) * (1 if isinstance(v.op, ast.Add) else -1), st, RAW(t.slice), None))
+                    else:
+                        out.append(("set", t.value.id, X(t.slice) if not isinstance(t.slice, ast.Slice) else ":", X(v), st, RAW(t.slice) if not isinstance(t.slice, ast.Slice) else ":", RAW(v)))
+                elif isinstance(t, ast.Name) and isinstance(v, ast.BinOp) and isinstance(v.op, (ast.Add, ast.Sub)) and const(v.right) is not None and isinstance(v.left, ast.Name) and v.left.id == t.id:
+                    out.append(("ninc", t.id, None, const(v.right) * (1 if isinstance(v.op, ast.Add) else -1), st, None, None))
+        elif inl is None and isinstance(s, ast.Expr) and isinstance(s.value, ast.Call) and isinstance(s.value.func, ast.Name):
+            callee = _local_helper(repo, fi, s.value.func.id)
+            if callee is not None:
+                body = [b for b in callee.node.body if not (isinstance(b, ast.Expr) and isinstance(b.value, ast.Constant))]
+                if all(isinstance(b, (ast.Assign, ast.AugAssign)) for b in body):
+                    _effects_into(repo, fi, body, at, ex, out, (callee, bind(s.value, callee.named_params), s))
+
+
+def _local_helper(repo, fi: FunctionInfo, name: str) -> Optional[FunctionInfo]:
+    p = fi
+    while p is not None:
+        f = repo.all_functions.get(p.qualname + ".<locals>." + name)
+        if f is not None:
+            return f
+        p = p.parent
+    return None
+
+
+def _label_events(repo, fi: FunctionInfo, L: str):
+    """statements that write an element of the label array: direct stores and
+    calls of a straight-line nested helper that stores into it.
+    -> [(statement, [its 'set' effects on L])]"""
+    out = []
+    for s in sorted((x for x in own_nodes(fi.node) if isinstance(x, (ast.Assign, ast.AugAssign, ast.Expr))), key=lambda x: x.lineno):
+        eff = [e for e in _effects(repo, fi, [s], s) if e[0] == "set" and e[1] == L]
+        if eff:
+            out.append((s, eff))
+        elif isinstance(s, ast.AugAssign) and isinstance(s.target, ast.Subscript) and src_of(s.target.value) == L:
+            out.append((s, []))
+    return out
+
+
+def _x_at(repo, fi, src: str, at) -> str:
+    return want(repo, src, fi, at)
 
 
 def check_a(ck, repo):
     fi = repo.func(MOD, "_constraint_association_distance")
-    stores = _label_stores(fi)
+    L, C, LC, LIM, LO = _pn(fi, P_LABELS), _pn(fi, P_COUNTERS), _pn(fi, P_LEFTCLOSE), _pn(fi, P_LIMIT), _pn(fi, P_LEFTOVER)
+    ex = expander(repo)
     n = 0
-    for s, t in stores:
-        idx = src_of(t.slice)
-        if isinstance(t.slice, ast.Slice):
-            # initialisation labels[:] = -1
-            ck.verdict(isinstance(s, ast.Assign) and src_of(s.value) == "-1", "C07.a", fi, s, "labels initialised to -1 (unassigned)", "labels are initialised to something else than -1: the `while labels.min() == -1` loop no longer means 'some point is unassigned'")
-            continue
-        n += 1
-        if not (isinstance(s, ast.Assign) and isinstance(s.value, ast.Name)):
+    for s, sets in _label_events(repo, fi, L):
+        if len(sets) != 1:
             ck.violated("C07.a", fi, s, "label assignment is not of the form labels[point] = cluster")
             continue
-        c = s.value.id
-        block = _block_of(s)
-        inc = _has_stmt(block, f"counters[{c}] += 1")
-        tests = enclosing_tests(s, fi.node)
-        inner = src_of(tests[0][0]) if tests else ""
-        quota = tests and tests[0][1] and inner == f"counters[{c}] < limit"
-        left = tests and tests[0][1] and isinstance(tests[0][0], ast.BoolOp) and isinstance(tests[0][0].op, ast.And) and {src_of(v) for v in tests[0][0].values} == {"nover > 0", f"leftclose[{c}] == -1"}
-        if not inc:
-            ck.violated("C07.a", fi, s, f"labels[{idx}] = {c} without counters[{c}] += 1 in the same block: the quota of cluster {c} no longer counts this point")
+        _, _, ix, cx, _, idx, c = sets[0]
+        if ix == ":":
+            ck.verdict(cx == "-1", "C07.a", fi, s, "labels initialised to -1 (unassigned)", "labels are initialised to something else than -1: 'some point is unassigned' is no longer `a label is -1`")
+            continue
+        n += 1
+        if idx is None or c is None:
+            ck.unknown("C07.a", fi, s, "cannot express the point / cluster of this assignment in the caller's terms")
+            continue
+        eff = _effects(repo, fi, _block_of(s), s)
+        inc = [e for e in eff if e[0] == "inc" and e[1] == C and e[2] == cx]
+        conds = conds_at(repo, fi, s)
+        quota = cond_want(repo, f"{C}[{c}] < {LIM}", fi, s) in conds
+        decs = [e for e in eff if e[0] == "ninc" and e[3] == -1]
+        left = None
+        for d in decs:
+            N = d[1]
+            if cond_want(repo, f"{N} > 0", fi, s) in conds and cond_want(repo, f"{LC}[{c}] == -1", fi, s) in conds:
+                left = N
+        if len(inc) != 1 or inc[0][3] != 1:
+            ck.violated("C07.a", fi, s, f"{L}[{idx}] = {c} without exactly one {C}[{c}] += 1 in the same block: the quota of cluster {c} no longer counts this point")
         elif quota:
-            ck.holds("C07.a", fi, s, f"assignment under quota guard counters[{c}] < limit, counter incremented")
-        elif left:
-            ok = _has_stmt(block, "nover -= 1") and _has_stmt(block, f"leftclose[{c}] = 0")
-            ck.verdict(ok, "C07.a", fi, s, "leftover clause: nover decremented and the cluster marked as having taken its extra point", "leftover clause does not consume the allowance (nover -= 1 and leftclose[c] = 0 expected): a cluster can take more than one extra point")
+            ck.holds("C07.a", fi, s, f"assignment where {C}[{c}] < {LIM}, counter incremented")
+        elif left is not None:
+            marks = [e for e in eff if e[0] == "set" and e[1] == LC and e[2] == cx and e[3] != "-1"]
+            inits = [tx for _, tx in defs_texts(repo, fi, left)]
+            ck.verdict(len(marks) == 1 and inits == [LO], "C07.a", fi, s, f"leftover clause: {left} (initialised to {LO}) decremented and the cluster marked as having taken its extra point", f"leftover clause does not consume the allowance ({left} = {LO} initially, {left} -= 1 and {LC}[{c}] marked expected): a cluster can take more than one extra point")
         else:
-            ck.violated("C07.a", fi, s, f"labels[{idx}] = {c} is guarded by {inner!r}; expected `counters[{c}] < limit` or `nover > 0 and leftclose[{c}] == -1`: a cluster can exceed its quota")
-        # the candidate cluster comes from the point's own sorted centre list
-    # every point is considered: loop over sorted_index skipping assigned points
-    loop_ok = any(isinstance(x, ast.While) and src_of(x.test) == "labels.min() == -1" for x in own_nodes(fi.node))
-    ck.verdict(loop_ok, "C07.a", fi, "while labels.min() == -1", "association repeats until no point is unassigned", "the association loop no longer runs until every point has a label")
-    skip_ok = any(isinstance(x, ast.If) and src_of(x.test) == "labels[ind] >= 0" and any(isinstance(b, ast.Continue) for b in x.body) for x in own_nodes(fi.node))
-    ck.verdict(skip_ok, "C07.a", fi, "if labels[ind] >= 0: continue", "already assigned points are skipped (assigned exactly once)", "assigned points are not skipped: a point can be counted in two clusters")
+            ck.violated("C07.a", fi, s, f"{L}[{idx}] = {c} is executed where {sorted(conds)[:4]}; expected `{C}[{c}] < {LIM}` or `<remaining extras> > 0 and {LC}[{c}] == -1` (with the extras decremented in the same block): a cluster can exceed its quota")
+        unassigned = {cond_want(repo, f"{L}[{idx}] >= 0", fi, s, False), cond_want(repo, f"{L}[{idx}] == -1", fi, s), cond_want(repo, f"{L}[{idx}] != -1", fi, s, False)}
+        ck.verdict(any(u in conds for u in unassigned), "C07.a", fi, f"{src_of(s)} only if unassigned", "already assigned points are skipped (assigned exactly once)", "assigned points are not skipped: a point can be counted in two clusters")
+    loops = [w for w in own_nodes(fi.node) if isinstance(w, ast.While)]
+    okl = any(ctext(src_of(w.test)) in {ctext(f"{L}.min() == -1"), ctext(f"{L}.min() < 0"), ctext(f"({L} == -1).any()"), ctext(f"({L} < 0).any()"), ctext(f"-1 in {L}")} for w in loops)
+    ck.verdict(okl, "C07.a", fi, f"while {L}.min() == -1", "association repeats until no point is unassigned", "the association loop no longer runs until every point has a label")
     return n
 
 
 def check_b(ck, repo):
     n = 0
+    ex = expander(repo)
     # _switch_clusters: swap
     sw = repo.func(MOD, "_switch_clusters")
-    for s, t in _label_stores(sw):
+    L = _pn(sw, 0)
+    done = set()
+    for s, t in _label_stores(sw, L):
+        if id(s) in done:
+            continue
+        done.add(id(s))
         n += 1
+        sets = [e for e in _effects(repo, sw, _block_of(s), s) if e[0] == "set" and e[1] == L]
         ok = False
-        if isinstance(s, ast.Assign) and isinstance(s.targets[0], ast.Tuple) and isinstance(s.value, ast.Tuple) and len(s.targets[0].elts) == 2 and len(s.value.elts) == 2:
-            t0, t1 = s.targets[0].elts
-            v0, v1 = s.value.elts
-            if all(isinstance(x, ast.Subscript) and src_of(x.value) == "labels" for x in (t0, t1)) and isinstance(v0, ast.Name) and isinstance(v1, ast.Name):
-                i0, i1 = src_of(t0.slice), src_of(t1.slice)
-                # v1 must hold labels[i0] and v0 labels[i1]
-                defs = {}
-                for d in own_nodes(sw.node):
-                    if isinstance(d, ast.Assign) and len(d.targets) == 1 and isinstance(d.targets[0], ast.Name):
-                        defs.setdefault(d.targets[0].id, []).append(src_of(d.value))
-                ok = defs.get(v1.id) == [f"labels[{i0}]"] and defs.get(v0.id) == [f"labels[{i1}]"] and i0 != i1
+        if len(sets) == 2:
+            (_, _, p1, v1, s1, r1, _), (_, _, p2, v2, s2, r2, _) = sets
+            if r1 is not None and r2 is not None and p1 != p2:
+                ok = v1 == _x_at(repo, sw, f"{L}[{r2}]", s) and v2 == _x_at(repo, sw, f"{L}[{r1}]", s)
         if ok:
-            ck.holds("C07.b", sw, s, "simultaneous swap of two entries (counts unchanged)")
+            ck.holds("C07.b", sw, s, "exchange of the two entries' values (counts unchanged)")
         else:
             ck.violated("C07.b", sw, s, "label write in _switch_clusters is not an exchange of the two entries' values: cluster sizes change after the constraint was met")
     # gain strategy
     g = repo.func(MOD, "_constraint_association_gain")
-    stores = _label_stores(g)
+    L, C, LC, LIM, DC = _pn(g, P_LABELS), _pn(g, P_COUNTERS), _pn(g, P_LEFTCLOSE), _pn(g, P_LIMIT), _pn(g, P_DCLOSE)
+    stores = _label_stores(g, L)
+    partners = []
     for s, t in stores:
         if isinstance(t.slice, ast.Slice):
             continue  # labels[:] = argmin(...) initial assignment for prediction
         n += 1
-        if not (isinstance(s, ast.Assign) and isinstance(s.value, ast.Name)):
+        if not isinstance(s, ast.Assign) or len(s.targets) != 1:
             ck.violated("C07.b", g, s, "unexpected form of label write")
             continue
-        block = _block_of(s)
-        texts = [src_of(x) for x in block]
-        p, c = src_of(t.slice), s.value.id
-        # move: labels[ind] = dest with counters[cur] -= 1; counters[dest] += 1
-        if f"counters[{c}] += 1" in texts:
-            dec = [x for x in texts if x.startswith("counters[") and x.endswith("] -= 1")]
-            tests = enclosing_tests(s, g.node)
-            guard = src_of(tests[0][0]) if tests and tests[0][1] else ""
-            cur = dec[0][len("counters["):-len("] -= 1")] if len(dec) == 1 else None
-            want = {f"counters[{c}] < ave + leftclose[{c}]", f"counters[{cur}] > ave + leftclose[{cur}]"}
-            got = {src_of(v) for v in tests[0][0].values} if tests and isinstance(tests[0][0], ast.BoolOp) and isinstance(tests[0][0].op, ast.And) else {guard}
-            curdef = [src_of(d.value) for d in own_nodes(g.node) if isinstance(d, ast.Assign) and len(d.targets) == 1 and isinstance(d.targets[0], ast.Name) and d.targets[0].id == cur]
-            if cur is None:
-                ck.violated("C07.b", g, s, f"move to cluster {c} increments its counter but no counter is decremented: the total count drifts")
-            elif curdef != [f"labels[{p}]"]:
-                ck.violated("C07.b", g, s, f"the decremented cluster '{cur}' is not the point's current label labels[{p}]")
-            elif got != want:
-                ck.violated("C07.b", g, s, f"move is guarded by {sorted(got)}; the two-sided capacity guard {sorted(want)} is required, otherwise a cluster can exceed or fall below its allowed size")
-            else:
+        eff = _effects(repo, g, _block_of(s), s)
+        p, c = src_of(t.slice), src_of(s.value)
+        cx = ex.text(s.value, g, s)
+        old = _x_at(repo, g, f"{L}[{p}]", s)  # the point's label before the write
+        incs = [e for e in eff if e[0] == "inc" and e[1] == C]
+        up = [e for e in incs if e[2] == cx and e[3] == 1]
+        if up:
+            down = [e for e in incs if e[3] == -1]
+            conds = conds_at(repo, g, s)
+            if len(down) != 1 or len(incs) != 2:
+                ck.violated("C07.b", g, s, f"move to cluster {c} increments its counter but the counter updates of the block are {[(e[2][:30], e[3]) for e in incs]}: the total count drifts")
+                continue
+            dsrc = src_of(down[0][4].target.slice) if isinstance(down[0][4], ast.AugAssign) else None
+            if down[0][2] != old:
+                ck.violated("C07.b", g, s, f"the decremented cluster is not the point's current label {L}[{p}]")
+                continue
+            w1 = cond_want(repo, f"{C}[{c}] < {LIM} + {LC}[{c}]", g, s)
+            w2 = cond_want(repo, f"{C}[{L}[{p}]] > {LIM} + {LC}[{L}[{p}]]", g, s)
+            if w1 in conds and w2 in conds:
                 ck.holds("C07.b", g, s, "move paired with counters[cur] -= 1, counters[dest] += 1 under the two-sided capacity guard")
+            else:
+                ck.violated("C07.b", g, s, f"move is executed where {sorted(x for x in conds if C in x[0])}; the two-sided capacity guard `{C}[dest] < {LIM} + {LC}[dest]` and `{C}[cur] > {LIM} + {LC}[cur]` is required, otherwise a cluster can exceed or fall below its allowed size")
         else:
-            # swap half: labels[ind] = dest together with labels[destind] = cur
-            others = [x for x in block if isinstance(x, ast.Assign) and x is not s and isinstance(x.targets[0], ast.Subscript) and src_of(x.targets[0].value) == "labels"]
-            ok = False
-            for o in others:
-                p2, c2 = src_of(o.targets[0].slice), src_of(o.value)
-                # (p -> c) and (p2 -> c2): c must be the cluster p2 sits in (p2 was queued for transfer cur->dest's reverse) and c2 the label of p
-                lab_p = [src_of(d.value) for d in own_nodes(g.node) if isinstance(d, ast.Assign) and len(d.targets) == 1 and isinstance(d.targets[0], ast.Name) and d.targets[0].id in (c, c2)]
-                if p2 != p and c2 != c:
-                    ok = True
+            # swap half: labels[p] = c together with labels[p2] = <old label of p>
+            others = [e for e in eff if e[0] == "set" and e[1] == L and e[4] is not s]
+            ok = any(e[3] == old and e[2] != ex.text(t.slice, g, s) for e in others)
+            rev = [e for e in eff if e[0] == "set" and e[1] == L and e[4] is not s and e[3] == old]
             if ok:
                 ck.holds("C07.b", g, s, "half of an exchange of two points between two clusters (counts unchanged)")
+                for e in rev:
+                    partners.append((s, e))
+            elif not any(e[0] == "set" and e[1] == L and e[4] is not s for e in eff):
+                ck.violated("C07.b", g, s, f"{L}[{p}] = {c} is neither paired with counter updates nor with the reverse move of another point: cluster sizes change without the counters knowing")
             else:
-                ck.violated("C07.b", g, s, f"labels[{p}] = {c} is neither paired with counter updates nor with the reverse move of another point: cluster sizes change without the counters knowing")
+                # the other half of a pair: its partner is checked from the other side
+                oth = [e for e in eff if e[0] == "set" and e[1] == L and e[4] is not s]
+                back = any(ex.text(o[4].value, g, o[4]) == o[3] and _x_at(repo, g, f"{L}[{src_of(o[4].targets[0].slice)}]", s) == cx for o in oth if isinstance(o[4], ast.Assign))
+                ck.verdict(True, "C07.b", g, s, "second half of the exchange (the first half carries this point's previous label)", "")
     # swap partners come from a queue of candidates: entries whose point has moved since it was
     # queued (distances_close set) must be discarded before the head is used
-    purge = [w for w in own_nodes(g.node) if isinstance(w, ast.While) and any(isinstance(x, ast.If) and src_of(x.test) == "distances_close[destind]" and any(isinstance(b, ast.Delete) and src_of(b) == "del cp[0]" for b in x.body) for x in ast.walk(w))]
-    swaps = [s for s, t in stores if not isinstance(t.slice, ast.Slice) and src_of(t.slice) == "destind"]
-    for sw_ in swaps:
+    purges = []
+    for d in own_nodes_incl_lambda(g.node):
+        q = None
+        if isinstance(d, ast.Delete) and len(d.targets) == 1 and isinstance(d.targets[0], ast.Subscript) and isinstance(d.targets[0].value, ast.Name) and src_of(d.targets[0].slice) == "0":
+            q = d.targets[0].value.id
+        elif isinstance(d, ast.Call) and isinstance(d.func, ast.Attribute) and d.func.attr in ("pop", "popleft") and isinstance(d.func.value, ast.Name) and (not d.args or src_of(d.args[0]) == "0"):
+            q = d.func.value.id
+        if q is None:
+            continue
+        in_loop = any(isinstance(p_, (ast.While,)) for p_ in _parents(d))
+        qx = ex.text(ast.Name(id=q, ctx=ast.Load()), g, stmt_of(d))
+        moved = [c_ for c_ in conds_at(repo, g, d) if c_[1] and c_[0].startswith(f"{DC}[") and (qx in c_[0] or q in c_[0])]
+        if in_loop and moved:
+            purges.append((qx, d))
+            purges.append((q, d))
+    seen_p = set()
+    for s, e in partners:
+        if id(e[4]) in seen_p:
+            continue
+        seen_p.add(id(e[4]))
         n += 1
-        ok = any(w.lineno < sw_.lineno for w in purge)
-        ck.verdict(ok, "C07.b", g, sw_, "the swap partner is the first queued point that has not moved since it was queued", "stale entries of the transfer queue are not discarded before the head is used as swap partner: a point that already moved is 'swapped' again, which changes cluster sizes behind the counters' back")
+        tgt = e[4].targets[0] if isinstance(e[4], ast.Assign) else None
+        raw = tgt.slice if isinstance(tgt, ast.Subscript) else None
+        # where the partner's index comes from: read at the site(s) that define it
+        origins = [tx for _, tx in defs_texts(repo, g, raw.id)] if isinstance(raw, ast.Name) else [e[2]]
+        ok = bool(origins) and all(any(q in tx for q, _ in purges) for tx in origins)
+        ck.verdict(ok, "C07.b", g, e[4], "the swap partner is the first queued point that has not moved since it was queued (moved entries are dropped from the head of its queue in a loop)", "stale entries of the transfer queue are not discarded before the head is used as swap partner: a point that already moved is 'swapped' again, which changes cluster sizes behind the counters' back")
     return n
 
 
@@ -234,29 +376,60 @@ def _prod(a: str, b: str):
 
 
 def check_d(ck, repo):
+    ex = expander(repo)
+    callee = repo.func(MOD, "_constraint_association")
+    params = callee.named_params
     for fname in ("constraint_kmeans", "constraint_predictions"):
         fi = repo.func(MOD, fname)
-        lim = [s for s in own_nodes(fi.node) if isinstance(s, ast.Assign) and len(s.targets) == 1 and src_of(s.targets[0]) == "limit"]
-        lo = [s for s in own_nodes(fi.node) if isinstance(s, ast.Assign) and len(s.targets) == 1 and src_of(s.targets[0]) == "leftover"]
-        if len(lim) != 1 or len(lo) != 1:
-            ck.unknown("C07.d", fi, "limit / leftover", "set-up of the quota not found")
+        cs = calls(fi, lambda c: src_of(c.func) == "_constraint_association")
+        if not cs:
+            ck.unknown("C07.d", fi, "_constraint_association(...)", "call of the association step not found")
             continue
-        ck.verdict(src_of(lim[0].value) == "X.shape[0] // centers.shape[0]", "C07.d", fi, lim[0], "limit = n // k", f"limit = {src_of(lim[0].value)} is not floor(n / k)")
-        ck.verdict(src_of(lo[0].value) in ("X.shape[0] - limit * centers.shape[0]", "X.shape[0] - centers.shape[0] * limit", "X.shape[0] % centers.shape[0]"), "C07.d", fi, lo[0], "leftover = n - limit*k", f"leftover = {src_of(lo[0].value)} is not n - limit*k: limit*k + leftover != n, so some points cannot be placed or too many extras are allowed")
-        # both are handed to _constraint_association in that order
-        calls = [c for c in own_nodes_incl_lambda(fi.node) if isinstance(c, ast.Call) and src_of(c.func) == "_constraint_association"]
-        for c in calls:
-            a = [src_of(x) for x in c.args]
-            callee = repo.func(MOD, "_constraint_association")
-            params = callee.named_params
-            okp = len(a) >= 10 and all(a[i] == params[i] for i in range(min(len(a), len(params))) if params[i] in ("leftover", "counters", "labels", "leftclose", "distances_close", "centers", "X", "x_squared_norms", "limit", "strategy"))
-            ck.verdict(okp, "C07.d", fi, c, "quota arguments passed in the order the association expects", f"arguments {a} do not match parameters {params}: limit/leftover/counters are interchanged")
+        for c in cs:
+            b = bind(c, params)
+            N, K = "X.shape[0]", "centers.shape[0]"
+            # the quota is computed once from the shapes of X and centers (the centres are
+            # updated by the iterations, their shape is not): every definition of the
+            # variables handed over as limit / leftover is read at its own site
+            for role, pos in (("limit", P_LIMIT), ("leftover", P_LEFTOVER)):
+                a = b.get(_pn(callee, pos))
+                if isinstance(a, ast.Name):
+                    ds = defs_texts(repo, fi, a.id)
+                else:
+                    ds = [(c, ex.text(a, fi, c))] if a is not None else []
+                if not ds:
+                    ck.unknown("C07.d", fi, f"{fname}: {role}", "no definition found")
+                for st, tx in ds:
+                    if role == "limit":
+                        w = {want(repo, f"{N} // {K}", fi, st), want(repo, "len(X) // len(centers)", fi, st), want(repo, f"{N} // len(centers)", fi, st), want(repo, f"len(X) // {K}", fi, st)}
+                        ck.verdict(tx in w, "C07.d", fi, f"{fname}: limit = {tx}", "limit = n // k", f"limit = {tx} is not floor(n / k)")
+                    else:
+                        w = {want(repo, f"{N} - ({N} // {K}) * {K}", fi, st), want(repo, f"{N} % {K}", fi, st), want(repo, f"{N} - {K} * ({N} // {K})", fi, st)}
+                        ck.verdict(tx in w, "C07.d", fi, f"{fname}: leftover = {tx}", "leftover = n - limit*k", f"leftover = {tx} is not n - limit*k: limit*k + leftover != n, so some points cannot be placed or too many extras are allowed")
+            with ex.lenient():
+                t = {k: ex.text(v, fi, c) for k, v in b.items()}
+            # buffers: one counter / allowance per cluster, one flag per point
+            shapes = {P_COUNTERS: K, P_LEFTCLOSE: K, P_DCLOSE: N}
+            oks = True
+            for pos, dim in shapes.items():
+                a = b.get(_pn(callee, pos))
+                ds = defs_texts(repo, fi, a.id) if isinstance(a, ast.Name) else []
+                oks = oks and bool(ds)
+                for st, v in ds:
+                    v = v.replace(" ", "")
+                    dimx = want(repo, dim, fi, st).replace(" ", "")
+                    oks = oks and any(v.startswith(f"numpy.{f}(({dimx},)") or v.startswith(f"numpy.{f}({dimx},") for f in ("empty", "zeros"))
+            ck.verdict(oks and src_of(b.get(_pn(callee, P_X))) == "X" and src_of(b.get(_pn(callee, P_CENTERS))) == "centers", "C07.d", fi, c, "per-cluster / per-point buffers have one entry per cluster / point and are bound to the parameters the association expects", f"arguments {[src_of(a) for a in c.args]} do not match parameters {params}, or a buffer is not allocated with one entry per cluster / point")
     # iteration counter
     fi = repo.func(MOD, "constraint_kmeans")
-    incs = [s for s in own_nodes(fi.node) if isinstance(s, ast.AugAssign) and src_of(s.target) == "iter"]
+    it_name = "iter"
+    if it_name not in fi.named_params:
+        raise AnalysisError("anchor vanished: parameter iter of constraint_kmeans")
+    incs = [s for s in own_nodes(fi.node) if (isinstance(s, ast.AugAssign) and src_of(s.target) == it_name) or (isinstance(s, ast.Assign) and any(src_of(t) == it_name for t in s.targets))]
     for s in incs:
-        inside = any(isinstance(p, ast.While) and src_of(p.test) == "iter < max_iter" for p in _parents(s))
-        ck.verdict(inside and src_of(s) == "iter += 1", "C07.d", fi, s, "iteration counter incremented by one only under `while iter < max_iter`", "the iteration counter can pass max_iter")
+        by_one = (isinstance(s, ast.AugAssign) and isinstance(s.op, ast.Add) and src_of(s.value) == "1") or (isinstance(s, ast.Assign) and ctext(src_of(s.value)) == ctext(f"{it_name} + 1"))
+        bounded = cond_want(repo, f"{it_name} < max_iter", fi, s) in conds_at(repo, fi, s)
+        ck.verdict(by_one and bounded, "C07.d", fi, s, "iteration counter incremented by one only where iter < max_iter", "the iteration counter can pass max_iter")
     if not incs:
         ck.unknown("C07.d", fi, "iter += 1", "iteration counter not found")
     # predict dispatch
@@ -264,39 +437,49 @@ def check_d(ck, repo):
     pr = ci.methods.get("predict")
     if pr is None:
         raise AnalysisError("anchor vanished: ConstraintKMeans.predict")
-    calls = [c for c in own_nodes_incl_lambda(pr.node) if isinstance(c, ast.Call) and src_of(c.func) == "constraint_predictions"]
-    if len(calls) != 1:
-        ck.violated("C07.d", pr, "constraint_predictions(...)", f"predict has {len(calls)} calls to the balanced assignment")
+    cps = calls(pr, lambda c: src_of(c.func) == "constraint_predictions")
+    if len(cps) != 1:
+        ck.violated("C07.d", pr, "constraint_predictions(...)", f"predict has {len(cps)} calls to the balanced assignment")
     else:
-        c = calls[0]
-        tests = enclosing_tests(c, pr.node)
-        bal = any(is_self_attr(t, "balanced_predictions") and pol for t, pol in tests)
-        ck.verdict(bal, "C07.d", pr, c, "balanced assignment only under self.balanced_predictions", "the balanced assignment is not guarded by self.balanced_predictions")
-        st = kwarg(c, "strategy")
-        ck.verdict(st is not None and src_of(st) in ("self.strategy + '_p'", "f'{self.strategy}_p'"), "C07.d", pr, f"strategy={src_of(st) if st is not None else None}", "prediction variant of the strategy (labels initialised by nearest centre)", "predict uses the training variant of the strategy: labels are read before being initialised")
-        ck.verdict(len(c.args) >= 2 and src_of(c.args[1]) == "self.cluster_centers_", "C07.d", pr, f"centers={src_of(c.args[1]) if len(c.args) > 1 else None}", "balanced prediction uses the fitted centres", "balanced prediction does not use cluster_centers_")
-        rets = [r for r in own_nodes(pr.node) if isinstance(r, ast.Return)]
-        plain = [r for r in rets if isinstance(r.value, ast.Call) and src_of(r.value.func) == "KMeans.predict"]
-        ck.verdict(len(plain) >= 1, "C07.d", pr, "return KMeans.predict(self, X)", "without balanced predictions predict is KMeans.predict (nearest centre)", "the unbalanced path is no longer KMeans.predict")
-        # the labels returned are the first element of the balanced result
-        asg = enclosing_stmt(c)
-        if isinstance(asg, ast.Assign) and isinstance(asg.targets[0], ast.Tuple):
-            first = src_of(asg.targets[0].elts[0])
-            ok = any(isinstance(r.value, ast.Name) and r.value.id == first for r in rets)
-            ck.verdict(ok, "C07.d", pr, asg, "returns the balanced labels", "predict does not return the labels computed by the balanced assignment")
-    cm0 = ci.methods.get("constraint_kmeans")
-    if cm0 is not None:
-        sts = [x for x in own_nodes(cm0.node) if isinstance(x, (ast.Assign, ast.AugAssign)) and any(is_self_attr(t, "n_iter_") for t in assign_targets(x))]
-        call = [x for x in own_nodes(cm0.node) if isinstance(x, ast.Assign) and isinstance(x.value, ast.Call) and src_of(x.value.func) == "constraint_kmeans" and isinstance(x.targets[0], ast.Tuple)]
-        it_name = src_of(call[0].targets[0].elts[4]) if call and len(call[0].targets[0].elts) >= 5 else None
-        ck.verdict(len(sts) == 1 and isinstance(sts[0], ast.Assign) and src_of(sts[0].value) == it_name, "C07.d", cm0, sts[0] if sts else "self.n_iter_ = iter_", "n_iter_ is the counter returned by the constrained iterations (which started from the warm-up's count)", "n_iter_ is not plainly assigned the returned counter: warm-up iterations are counted twice and n_iter_ can exceed max_iter")
-    # fit hands max_iter // 2 to the initial k-means and the counter starts from n_iter_
+        c = cps[0]
+        conds = conds_at(repo, pr, c)
+        ck.verdict(cond_text("self.balanced_predictions") in conds, "C07.d", pr, c, "balanced assignment only where self.balanced_predictions", "the balanced assignment is not guarded by self.balanced_predictions")
+        b = bind(c, repo.func(MOD, "constraint_predictions").named_params)
+        t = {k: ex.text(v, pr, c) for k, v in b.items()}
+        ck.verdict(t.get("strategy") in (ctext("self.strategy + '_p'"), "f'{self.strategy}_p'"), "C07.d", pr, f"strategy={t.get('strategy')}", "prediction variant of the strategy (labels initialised by nearest centre)", "predict uses the training variant of the strategy: labels are read before being initialised")
+        ck.verdict(t.get("centers") == "self.cluster_centers_" and t.get("X") == "X", "C07.d", pr, f"centers={t.get('centers')}", "balanced prediction uses the fitted centres on the batch", "balanced prediction does not use (X, cluster_centers_)")
+        rets = returns(repo, pr)
+        plain = [(r, tx) for r, tx in rets if tx in ("KMeans.predict(self, X)", "super().predict(X)", "KMeans.predict(self, X=X)")]
+        okp = bool(plain) and all(cond_text("self.balanced_predictions") not in conds_at(repo, pr, r) or cond_text("self.weights_ is None") not in conds_at(repo, pr, r) for r, _ in plain)
+        unbal = [r for r, tx in rets if cond_text("self.balanced_predictions", False) in conds_at(repo, pr, r)]
+        ck.verdict(okp and all(any(r is p_ for p_, _ in plain) for r in unbal), "C07.d", pr, "return KMeans.predict(self, X)", "without balanced predictions predict is KMeans.predict (nearest centre)", "the unbalanced path is no longer KMeans.predict")
+        tc = ex.text(c, pr, c)
+        bal = [tx for r, tx in rets if cond_text("self.balanced_predictions") in conds_at(repo, pr, r) and (cond_text("self.weights_ is None") in conds_at(repo, pr, r))]
+        ck.verdict(bal == [ctext(f"({tc})[0]")], "C07.d", pr, f"balanced return {[b_[:50] for b_ in bal]}", "returns the balanced labels", "predict does not return the labels computed by the balanced assignment")
     cm = ci.methods.get("constraint_kmeans")
-    if cm is not None:
-        calls = [c for c in own_nodes_incl_lambda(cm.node) if isinstance(c, ast.Call) and src_of(c.func) == "constraint_kmeans"]
-        for c in calls:
-            it, mx = kwarg(c, "iter"), kwarg(c, "max_iter")
-            ck.verdict(it is not None and src_of(it) == "self.n_iter_" and mx is not None and src_of(mx) == "self.max_iter", "C07.d", cm, f"iter={src_of(it) if it is not None else None}, max_iter={src_of(mx) if mx is not None else None}", "the constrained iterations continue from n_iter_ and stop at max_iter", "iteration budget is not (n_iter_, max_iter): n_iter_ can exceed max_iter")
+    if cm is None:
+        raise AnalysisError("anchor vanished: ConstraintKMeans.constraint_kmeans")
+    ck_fn = repo.func(MOD, "constraint_kmeans")
+    # position of the iteration counter in the tuple the constrained iterations return
+    pos = set()
+    for r in own_nodes(ck_fn.node):
+        if isinstance(r, ast.Return) and isinstance(r.value, ast.Tuple):
+            for k, e in enumerate(r.value.elts):
+                if isinstance(e, ast.Name) and e.id == it_name:
+                    pos.add(k)
+    kc = calls(cm, lambda c: src_of(c.func) == "constraint_kmeans")
+    if len(kc) != 1 or len(pos) != 1:
+        ck.unknown("C07.d", cm, "constraint_kmeans(...)", f"{len(kc)} calls; counter returned at positions {sorted(pos)}")
+    else:
+        c = kc[0]
+        k = pos.pop()
+        b = bind(c, ck_fn.named_params)
+        t = {kk: ex.text(v, cm, c) for kk, v in b.items()}
+        ck.verdict(t.get(it_name) == "self.n_iter_" and t.get("max_iter") == "self.max_iter", "C07.d", cm, f"iter={t.get(it_name)}, max_iter={t.get('max_iter')}", "the constrained iterations continue from n_iter_ and stop at max_iter", "iteration budget is not (n_iter_, max_iter): n_iter_ can exceed max_iter")
+        with ex.lenient():  # the value of the returned tuple, as of the call
+            vals = [tx for st_, tx in self_attr_value_texts(repo, cm, "n_iter_")]
+        aug = [x for x in own_nodes(cm.node) if isinstance(x, ast.AugAssign) and is_self_attr(x.target, "n_iter_")]
+        ck.verdict(vals == [ctext(f"({ex.text(c, cm, c)})[{k}]")] and not aug, "C07.d", cm, "self.n_iter_ = <returned counter>", "n_iter_ is the counter returned by the constrained iterations (which started from the warm-up's count)", "n_iter_ is not plainly assigned the returned counter: warm-up iterations are counted twice and n_iter_ can exceed max_iter")
 
 
 def _parents(n):
